@@ -237,6 +237,15 @@ def main():
         ci += 1
         traces.append(scenario_1d(tid(), "lattice1d:wide", grid, atoms, rng, True, U, a_u=rng.randint(-40, 40), repr_name=r,
                                   fv=fv, sigma_u=rng.choice([0, 8])))
+    # truncation beyond |x| = 1 on ONE side only, every representation x variation flag on either side
+    for (nl, nr) in ((6, 3), (3, 6)):
+        for (r, fv) in combos:
+            step = 16
+            grid = CTMCGrid(h=step * U, origin_coordinate=nl, axes=[np.array([j * step * U for j in range(-nl, nr + 1)])])
+            lo, hi = int(round(grid.axes[0][0] / U)), int(round(grid.axes[0][-1] / U))
+            atoms = atomic.atoms_everywhere(lo - 8, hi + 8, rng, wmax=4, density=0.8)
+            traces.append(scenario_1d(tid(), "lattice1d:onesided", grid, atoms, rng, True, U, a_u=rng.randint(-40, 40), repr_name=r,
+                                      fv=fv, sigma_u=rng.choice([0, 8])))
     # the user's model was already truncated (narrower than the grid on one side, wider on the other)
     for rep in range(3 if quick else 10):
         step = 16
